@@ -5,6 +5,15 @@ let comp_pmap : Registry.comp = fun _ ->
   let st = ref PacketMap.pm_init in
   fun toks ->
     let open PacketMap in
+    if toks = ["dump"] then begin
+      let m = !st in
+      let hd = String.concat " " [ (if m.m_started then "true" else "false"); zs m.m_next; zs m.m_nextPid;
+                                   zs m.m_delta; zs m.m_pidDelta; zs m.m_lastEntry ] in
+      match m.m_entries with
+      | None -> hd ^ " nil"
+      | Some es ->
+         List.fold_left (fun acc e -> acc ^ " " ^ zs e.e_first ^ ":" ^ zs e.e_count ^ ":" ^ zs e.e_delta ^ ":" ^ zs e.e_pidDelta) hd es
+    end else
     let op = match toks with
       | ["map"; s; p] -> OMap (z s, z p)
       | ["drop"; s; p] -> ODrop (z s, z p)
